@@ -83,9 +83,9 @@ def reject_env(site, reject="false"):
     if ty["k"] == "tuple":
         return {}, {(l, (0,)): False}, {}
     if ty["k"] == "adt" and ty["d"] == "std::option::Option":
-        return {}, {}, {l: "None"}
+        return {l: "None"}, {}, {}
     if ty["k"] == "adt" and ty["d"] == "std::result::Result":
-        return {}, {}, {l: "Err"}
+        return {l: "Err"}, {}, {}
     return None
 
 
